@@ -314,6 +314,11 @@ C01_offer_complete(d, h1, step) ==
 C01_cleanup_offered(d, h0, step) ==
   (step.obs.q /\ step.obs.wf = "failed" /\ ~h0.rerun) =>
      \A t \in h0.cleanupDue : NewOffers(step, t) # {}
+\* an execution that is already open is not offered again (a with-items execution is: its next items)
+C01_no_reoffer(d, step) ==
+  step.obs.q => \A i \in 1..Len(step.obs.offers) :
+     LET o == step.obs.offers[i] IN
+     (o.id \in TaskNames(d) /\ ~HasItems(d, o.id)) => ~OpenRec(step.obs, o.id, o.route)
 C01_offer_known(d, step) ==
   \A i \in 1..Len(step.obs.offers) : step.obs.offers[i].id \in TaskNames(d)
 C01_start_consumes(d, h0, prev, step) ==
@@ -558,8 +563,17 @@ C12_all(d, h1, step) ==
            rest == {x \in 0..(o.nitems - 1) : x \notin started}
            room == WindowOf(d, o.id, o.nitems) - Cardinality(InFlightOf(step.obs, o.id, o.route))
            anyBad == \E x \in DOMAIN ItsOf(h1, k).st : ItsOf(h1, k).st[x] \notin {"succeeded", "running"}
-       IN (OpenRec(step.obs, o.id, o.route) /\ ~anyBad) =>
-             Len(o.items) = (IF Cardinality(rest) < room THEN Cardinality(rest) ELSE room)
+       IN /\ (OpenRec(step.obs, o.id, o.route) /\ ~anyBad) =>
+               Len(o.items) = (IF Cardinality(rest) < room THEN Cardinality(rest) ELSE room)
+          \* an execution that has not started yet is offered with its whole first window
+          /\ ~HasRec(step.obs, o.id, o.route) =>
+               Len(o.items) = (IF o.nitems < WindowOf(d, o.id, o.nitems) THEN o.nitems ELSE WindowOf(d, o.id, o.nitems))
+\* a with-items execution that is due (justified, not started) is on offer, with at least one item
+C12_due_offered(d, h1, step) ==
+  (step.obs.q /\ step.obs.wf = "running" /\ ~h1.pauseReq /\ ~h1.cancelReq /\ ~h1.rerun) =>
+    \A t \in TaskNames(d) :
+       (HasItems(d, t) /\ d.tasks[t].items > 0 /\ h1.tok[t] > 0) =>
+          \E i \in ItemOffers(d, step) : step.obs.offers[i].id = t /\ Len(step.obs.offers[i].items) > 0
 C12_succ_iff(d, h1, prev, step) ==
   (IsCompletion(prev, step) /\ HasItems(d, step.call.task)) =>
      LET k == Rid(step.call.task, step.call.route)
@@ -728,6 +742,7 @@ Failing(d, h0, h1, prev, step) ==
   FP("C01", "C01_offer_justified", C01_offer_justified(d, h1, step)) \cup
   FP("C01", "C01_offer_complete",  C01_offer_complete(d, h1, step)) \cup
   FP("C01", "C01_cleanup_offered", C01_cleanup_offered(d, h0, step)) \cup
+  FP("C01", "C01_no_reoffer",      C01_no_reoffer(d, step)) \cup
   FP("C01", "C01_offer_known",     C01_offer_known(d, step)) \cup
   FP("C01", "C01_start_consumes",  C01_start_consumes(d, h0, prev, step)) \cup
   FP("C01", "C01_success_exact",   C01_success_exact(d, h1, step)) \cup
@@ -770,6 +785,7 @@ Failing(d, h0, h1, prev, step) ==
   FP("C12", "C12_order",           C12_order(d, h1, step)) \cup
   FP("C12", "C12_window",          C12_window(d, step)) \cup
   FP("C12", "C12_all",             C12_all(d, h1, step)) \cup
+  FP("C12", "C12_due_offered",     C12_due_offered(d, h1, step)) \cup
   FP("C12", "C12_succ_iff",        C12_succ_iff(d, h1, prev, step)) \cup
   FP("C12", "C12_hold",            C12_hold(h1, step)) \cup
   FP("C12", "C12_drain",           C12_drain(d, prev, step)) \cup
@@ -801,7 +817,7 @@ KF_C07_late_arrival_after_fire(d, h1, step) ==
   /\ \E i \in 1..Len(step.obs.offers) :
        LET o == step.obs.offers[i]
            g == GenOf(h1, Rid(o.id, o.route))
-       IN /\ IsJoin(d, o.id) /\ ~OpenRec(step.obs, o.id, o.route)
+       IN /\ IsJoin(d, o.id)      \* (offered again after it finished, or while its execution is still open)
           /\ g.fired /\ g.started
           /\ Need(d, o.id) < Cardinality(Inbound(d, o.id))
           /\ Cardinality(g.arr) > Need(d, o.id)
